@@ -20,6 +20,12 @@ Transcribed from (pinned tree, after repairs 4499f0c6 and b35524dc):
   `blockExecutor.execute` (738-787: all txs, then `WaitVerifyDone`) + `BlockValidator.ValidateBody/WaitVerifyDone`
   → `execBlock` (the signature verdict used for a block is the one computed for that block).
 
+* `types/blockchain.go` `ValidChildOf`, `chain/chainhandle.go` `addBlock` (chain-id version check, repair bd63ef2d),
+  `newBlockExecutor` (`bi = NewBlockHeaderInfo(block)`) → `HdrCid`, `acceptHeader`, `execHBlock`, `runChain`;
+* `mempool/mempool.go`    `loadTxs` (repair d1ee2c8f) → `poolLoad`;
+* `consensus/chain/tx.go` `GatherTXs`, `consensus/chain/block.go` `GenerateBlock`/`ConnectBlock`, `newBlockExecutor`
+  `commitOnly` → `gatherTxs`, `produceBlock` (`executeTx` no longer strips the verified account: repair 7dc29266); `runNode`.
+
 SHA-256 is the parameter `H`, ECDSA verification the parameter `Verify pk msg sig`: uninterpreted.
 What a transaction does besides the nonce (balances, names) is the parameter `body : Body`; its type cannot
 return nonces, which is the frame fact "only executeTx/resetAccount write the sender's nonce" (true for every
